@@ -1,3 +1,5 @@
 -- Root of the `NostrRelay` library: models (import-free) and property theorems.
 import NostrRelay.Model.RateLimiter
+import NostrRelay.Model.Notifier
 import NostrRelay.Props.C18
+import NostrRelay.Props.C20
